@@ -653,6 +653,40 @@ def shard_main(ck, shard, nshards):
     json.dump(COLLECTED, open('/var/tmp/mjxagent/collected_%d.json' % shard, 'w'), indent=1)
 
 
+def _gm_from_json(j):
+  import re
+  xml = j['xml'] if isinstance(j, dict) else str(j)
+  info = dict(j.get('info', {})) if isinstance(j, dict) else {}
+  m = re.search(r'<flag([^/]*)/>', xml)
+  flags = {k: 'disable' for k in re.findall(r'(\w+)="disable"', m.group(1))} if m else {}
+  opt = dict(integrator=(re.search(r'integrator="(\w+)"', xml) or [None, 'Euler'])[1], cone=(re.search(r'cone="(\w+)"', xml) or [None, 'pyramidal'])[1],
+             solver='Newton', flags=flags)
+  info.setdefault('option', opt)
+  info.setdefault('labels', j.get('labels', []) if isinstance(j, dict) else [])
+  if 'pinned:contact' in info['labels']:
+    info['pos_scale'] = 0.004
+  elif 'pinned:tendon' in info['labels']:
+    info['pos_scale'] = 0.6
+  elif 'pinned:rk4' in info['labels']:
+    info['pos_scale'] = 0.5
+  return mg.GenModel(xml, info)
+
+
+def replay(ck, body):
+  """./verif C43 --replay <violation.json>: re-run one (model, state batch) in process."""
+  mjxload.load()
+  lib = ck.lib('rel')
+  R = Runner(ck, lib)
+  case = body['case']['case']
+  gm, seeds = _gm_from_json(case[0]), [int(x) for x in case[1]]
+  pinned = any(str(l).startswith('pinned:') for l in gm.info['labels'])
+  settle = [0 if k % 2 == 0 else (3 + k if pinned else (5 + 7 * k) % 41) for k in range(len(seeds))]
+  try:
+    R.run_model(gm, seeds, settle)
+  except Violation as e:
+    ck.violation('Violation: %s' % e, dict(check='replay', case=case), bucket=getattr(e, 'bucket', None))
+
+
 def main(ck):
   from vf import mjxshard
   ck.rule = RULE
